@@ -43,6 +43,21 @@ def check():
         got = {p.name for p in sig.parameters.values() if p.kind is inspect.Parameter.KEYWORD_ONLY and not p.name.startswith("_")}
         if got != want:
             return n, "Outer.%s advertises nested keywords %r, the element class's init-enabled attributes are %r" % (h, sorted(got), sorted(want))
+    # ... also for the scalar and top-level helpers, and an init=False attribute is refused when passed
+    for cls, h in ((Outer, "with_inner"), (Outer, "update_inner"), (Outer, "transform_inner"), (Inner, "update"), (Inner, "transform")):
+        n += 1
+        sig = inspect.signature(getattr(cls, h))
+        if "secret" in sig.parameters:
+            return n, "%s.%s advertises the init=False attribute `secret` of Inner: %s" % (cls.__name__, h, sig)
+    for label, call in (("Outer(inner=Inner('i')).update_inner(secret=1)", lambda: Outer(inner=Inner("i")).update_inner(secret=1)),
+                        ("Outer().with_item(name='k', secret=1)", lambda: Outer().with_item(name="k", secret=1)),
+                        ("Inner('i').update(secret=1)", lambda: Inner("i").update(secret=1))):
+        n += 1
+        try:
+            call()
+            return n, "%s was accepted: `secret` is declared init=False and is outside the advertised signature" % label
+        except TypeError:
+            pass
     return n, None
 
 
